@@ -163,7 +163,13 @@ def run_case(case, cnt=None, root=None, idset=None):
             expected_outputs.append(stem + ".bin")
         if sel.startswith("make"):
             main.append("make_bin \"mk.bin\"")
-            main.append("make_raw \"out/mk.raw\"")
+            if case["seed"] % 3 == 0:
+                # the path spelled with a <n> chunk whose value is defined at the very end of the file: the directive can only be
+                # evaluated in the final pass, and is as much a request as any other
+                main.append("make_raw \"out/mk\"<mk7qq>\"raw\"")
+                main.append("mk7qq = 56")
+            else:
+                main.append("make_raw \"out/mk.raw\"")
             main.append("make_wav \"mk.wav\", \"TAPE\"")
             expected_outputs += ["mk.bin", "out/mk.raw", "mk.wav"]
             if sel == "make+o":
